@@ -451,6 +451,75 @@ pub fn cycling_classics(r: &mut Rng) -> Vec<(&'static str, LinearModel)> {
     out
 }
 
+/// Variable-free models, a FIXED block: every comparison kind against the right-hand sides 0.0, -0.0, 1, -1 (one row), and
+/// every true / false order of two and three constant rows (the verdict must not depend on which row comes last).
+pub fn variable_free_block() -> Vec<LinearModel> {
+    use rooc::LinearConstraint;
+    let cmps = [Comparison::LessOrEqual, Comparison::GreaterOrEqual, Comparison::Equal, Comparison::Less, Comparison::Greater];
+    let mk = |rows: Vec<(Comparison, f64)>, opt: OptimizationType, off: f64| {
+        let rows = rows.into_iter().map(|(c, b)| LinearConstraint::new(vec![], c, b)).collect();
+        LinearModel::new_from_parts(vec![], opt, off, rows, vec![], Default::default())
+    };
+    let mut out = vec![];
+    for c in cmps { for b in [0.0, -0.0, 1.0, -1.0] { out.push(mk(vec![(c, b)], OptimizationType::Min, 2.0)); } }
+    // rows that hold (T) and rows that do not (F), all with non-strict comparisons so the exact oracle judges them
+    let t = [(Comparison::GreaterOrEqual, 0.0), (Comparison::LessOrEqual, 0.0), (Comparison::Equal, -0.0), (Comparison::LessOrEqual, 1.0), (Comparison::GreaterOrEqual, -1.0)];
+    let f = [(Comparison::GreaterOrEqual, 1.0), (Comparison::LessOrEqual, -1.0), (Comparison::Equal, 1.0)];
+    for (i, tr) in t.iter().enumerate() {
+        let fr = f[i % f.len()];
+        let tr2 = t[(i + 1) % t.len()];
+        let opt = [OptimizationType::Min, OptimizationType::Max, OptimizationType::Satisfy][i % 3].clone();
+        out.push(mk(vec![*tr, tr2], opt.clone(), -1.0));
+        out.push(mk(vec![*tr, fr], opt.clone(), 0.0));
+        out.push(mk(vec![fr, *tr], opt.clone(), 3.0));
+        out.push(mk(vec![fr, f[(i + 1) % f.len()]], opt.clone(), 0.0));
+        out.push(mk(vec![*tr, fr, tr2], opt.clone(), 1.0));
+        out.push(mk(vec![fr, *tr, tr2], opt, 1.0));
+    }
+    out
+}
+
+/// Named SINGLETON rows that bind (`cap: 2x <= 6`), built through `add_named_constraint`, next to a mixing row: the
+/// optimum is the unique non-degenerate vertex where all of them are active, prices positive (user sense).
+/// Returns `(intended, built)`: `built` goes through `add_variable` / `add_named_constraint`, `intended` is the same model
+/// assembled with `new_from_parts` from the declared domains (the ground truth for the oracle: whatever the API calls do
+/// to the model besides storing the row must not change what the rows mean).
+pub fn singleton_bound_rows(r: &mut Rng) -> (LinearModel, LinearModel) {
+    let n = 2 + r.below(2);
+    let mut m = LinearModel::new();
+    let mut types: Vec<VariableType> = vec![];
+    for i in 0..n {
+        let t = if r.chance(1, 2) { VariableType::NonNegativeReal(0.0, f64::INFINITY) } else { VariableType::Real(f64::NEG_INFINITY, f64::INFINITY) };
+        m.add_variable(&format!("x{}", i), t.clone());
+        types.push(t);
+    }
+    let v: Vec<f64> = (0..n).map(|_| 1.0 + r.below(4) as f64).collect();
+    let max = r.chance(2, 3);
+    let mut obj = vec![0.0; n];
+    // singleton rows on all but the last variable
+    for j in 0..n - 1 {
+        let k = 1.0 + r.below(3) as f64;
+        let y = 1.0 + r.below(3) as f64;
+        let mut c = vec![0.0; n]; c[j] = k;
+        if max { m.add_named_constraint(c, Comparison::LessOrEqual, k * v[j], &format!("cap{}", j)); }
+        else { m.add_named_constraint(c, Comparison::GreaterOrEqual, k * v[j], &format!("floor{}", j)); }
+        obj[j] += y * k;
+    }
+    let w: Vec<f64> = (0..n).map(|_| 1.0 + r.below(2) as f64).collect();
+    let act: f64 = w.iter().zip(&v).map(|(a, b)| a * b).sum();
+    let y = 1.0 + r.below(2) as f64;
+    m.add_named_constraint(w.clone(), if max { Comparison::LessOrEqual } else { Comparison::GreaterOrEqual }, act, "mix");
+    for j in 0..n { obj[j] += y * w[j]; }
+    m.set_objective(obj, if max { OptimizationType::Max } else { OptimizationType::Min });
+    let mut domain = indexmap::IndexMap::new();
+    for (name, t) in m.variables().iter().zip(types.iter()) {
+        domain.insert(name.clone(), rooc::model_transformer::DomainVariable::new(t.clone(), Default::default()));
+    }
+    let intended = LinearModel::new_from_parts(m.objective().clone(), m.optimization_type().clone(), m.objective_offset(),
+        m.constraints().clone(), m.variables().clone(), domain);
+    (intended, m)
+}
+
 pub fn is_continuous(m: &LinearModel) -> bool {
     m.domain().values().all(|d| matches!(d.get_type(), VariableType::Real(_, _) | VariableType::NonNegativeReal(_, _)))
 }
